@@ -208,40 +208,65 @@ where
         let mut stored: std::collections::HashMap<u32, u64> = std::collections::HashMap::new();
         for c in &d.copies {
             if c.place >= d.places || c.place >= 63 {
-                return Err(Fail::new("layout:place-out-of-range", format!("copy of value {} stored at place {} of {}", c.val.id, c.place, d.places)));
+                if mon.layout || mon.tiling {
+                    return Err(Fail::new("layout:place-out-of-range", format!("copy of value {} stored at place {} of {}", c.val.id, c.place, d.places)));
+                }
+                continue;
             }
             let e = stored.entry(c.val.id).or_insert(0);
-            if *e & (1u64 << c.place) != 0 {
+            if *e & (1u64 << c.place) != 0 && mon.tiling {
                 return Err(Fail::new("dump:duplicate-copy", format!("value {} is stored twice at place {}", c.val.id, c.place)));
             }
             *e |= 1u64 << c.place;
-            let m = match self.model.iter().find(|m| m.id == c.val.id) {
-                Some(m) => m,
-                None => return Err(Fail::new("dump:unknown-value", format!("stored copy of value {} that was cleared or never inserted", c.val.id))),
-            };
-            if mon.tiling && c.mask != m.places {
-                return Err(Fail::new("tiling:mask", format!("copy of value {} carries place mask {:#x}, independent tiling of buckets [{},{}] is {:#x}", m.id, c.mask, m.blo, m.bhi, m.places)));
+            if mon.tiling && !self.model.iter().any(|m| m.id == c.val.id) {
+                return Err(Fail::new("dump:unknown-value", format!("stored copy of value {} that was cleared or never inserted", c.val.id)));
             }
         }
-        for m in &self.model {
-            let got = stored.get(&m.id).copied().unwrap_or(0);
-            let live = self.t_last == i32::MIN || m.exp >= self.t_last;
-            if live {
-                // an unexpired value can never have lost a copy
-                if mon.tiling || mon.purge {
-                    if got != m.places {
-                        let class = if got & !m.places != 0 { "tiling:wrong-places" } else { "dump:live-copy-lost" };
+        if mon.tiling {
+            // C15 as stated: the places of a value tile its bucket range exactly (every bucket of the
+            // range under exactly one place, no bucket outside under any) and there are at most 8.
+            // Any exact tiling passes, not only the canonical decomposition; the per-copy mask is an
+            // internal detail and is not judged.
+            for m in &self.model {
+                let got = stored.get(&m.id).copied().unwrap_or(0);
+                let live = self.t_last == i32::MIN || m.exp >= self.t_last;
+                let mut cover = 0u32; // buckets under a stored place
+                let mut bad: Option<String> = None;
+                for p in 0..63usize {
+                    if got & (1u64 << p) == 0 {
+                        continue;
+                    }
+                    let (l, r) = node_interval(p);
+                    let bits = if r - l == 31 { u32::MAX } else { ((1u32 << (r - l + 1)) - 1) << l };
+                    if l < m.blo || r > m.bhi {
+                        bad = Some(format!("place {} covers buckets [{},{}] outside the range", p, l, r));
+                    } else if cover & bits != 0 {
+                        bad = Some(format!("place {} (buckets [{},{}]) overlaps another place of the same value", p, l, r));
+                    }
+                    cover |= bits;
+                }
+                if let Some(b) = bad {
+                    return Err(Fail::new("tiling:wrong-places", format!("value {} (buckets [{},{}], exp {}) is stored at places {:#x}: {} (t={})", m.id, m.blo, m.bhi, m.exp, got, b, self.t_last)));
+                }
+                if live {
+                    // an unexpired value can never have lost a copy
+                    let n = m.bhi - m.blo + 1;
+                    let want = if n == 32 { u32::MAX } else { ((1u32 << n) - 1) << m.blo };
+                    if cover != want {
                         return Err(Fail::new(
-                            class,
-                            format!("value {} (buckets [{},{}], exp {}) is stored at places {:#x}, independent tiling {:#x} (t={})", m.id, m.blo, m.bhi, m.exp, got, m.places, self.t_last),
+                            "tiling:not-a-cover",
+                            format!("value {} (buckets [{},{}], exp {}) is stored at places {:#x}, which cover the bucket set {:#x}, not {:#x} (t={})", m.id, m.blo, m.bhi, m.exp, got, cover, want, self.t_last),
                         ));
                     }
-                    if mon.tiling && got.count_ones() > 8 {
+                    if got.count_ones() > 8 {
                         return Err(Fail::new("tiling:more-than-8-copies", format!("value {} is stored {} times", m.id, got.count_ones())));
                     }
+                    if got == m.places {
+                        rep.counters.inc("tilings_equal_to_canonical_decomposition");
+                    } else {
+                        rep.counters.inc("tilings_exact_but_not_canonical");
+                    }
                 }
-            } else if got & !m.places != 0 {
-                return Err(Fail::new("tiling:wrong-places", format!("expired value {} stored at places {:#x} outside its tiling {:#x}", m.id, got, m.places)));
             }
         }
         if mon.purge {
@@ -261,8 +286,9 @@ where
                         ));
                     }
                 }
-                if d.copies.len() != want {
-                    return Err(Fail::new("purge:copy-count", format!("after a whole-domain query at t={} {} copies are stored, unexpired values account for {}", t, d.copies.len(), want)));
+                // (how many copies the unexpired values keep is C15's / C03's business, not judged here)
+                if d.copies.len() == want {
+                    rep.counters.inc("purge_left_exactly_the_canonical_copies_of_unexpired_values");
                 }
                 rep.counters.inc("purge_checked_after_whole_domain_query");
             }
